@@ -369,6 +369,9 @@ var fileOps = []fsx.Op{
 	{K: "FRead", H: 9, N: 3}, {K: "FWrite", H: 9, Data: "s"}, {K: "FSeek", H: 9, Off: 0, Whence: 0}, {K: "FStat", H: 9}, {K: "FReadAt", H: 9, N: 2, Off: 0}, {K: "FWriteAt", H: 9, Data: "S", Off: 1}, {K: "FTruncate", H: 9, Size: 3}, {K: "FName", H: 9},
 }
 
+var rootOps = []fsx.Op{{K: "Open", P: "/", Flag: os.O_RDONLY, H: 4}, {K: "FStat", H: 4}, {K: "FStat", H: 4}, {K: "FReadDir", H: 4, N: -1}, {K: "FReaddirnames", H: 4, N: 2}, {K: "RemoveAll", P: "/"},
+	{K: "Mkdir", P: "/w", Perm: 0o777}, {K: "WriteFile", P: "/w/n", Data: "n", Perm: 0o666}, {K: "Mkdir", P: "/top", Perm: 0o777}}
+
 func TestCheck(t *testing.T) {
 	c := vt.New(t, "C08")
 	defer c.Finish()
@@ -411,6 +414,11 @@ func TestCheck(t *testing.T) {
 			for w := 0; w < nw; w++ {
 				var ops []fsx.Op
 				for n := rapid.IntRange(5, 40).Draw(t, "ops"); n > 0; n-- {
+					if wipe && rapid.IntRange(0, 3).Draw(t, "root") == 0 {
+						// (the last six entries before the shared-handle ones: the root directory's handle and its removal)
+						ops = append(ops, rootOps[rapid.IntRange(0, len(rootOps)-1).Draw(t, "rop")])
+						continue
+					}
 					if rapid.IntRange(0, 3).Draw(t, "file") == 0 {
 						o := fileOps[rapid.IntRange(0, len(fileOps)-1).Draw(t, "fop")]
 						if o.H == 9 && !strings.HasSuffix(kind, "-sharedhandle") {
